@@ -28,11 +28,14 @@
   TREE LEVEL ON STRINGS (Lemmas/SpanDesc*.lean: every node is made by a token whose span is the one
   recorded; Lemmas/LexSpell*.lean: what those spans spell; Lemmas/SpanSlice*.lean, SpanDecodeRun.lean):
   for every string accepted by `parse` / `parse_fragment` and every node of the tree,
-    C17_slice_element    `ElementStart` slices the source to the qualified name as written, whose local
+    C17_names_whole      (/repo a5fafb0) in an accepted text no name is written `:local`: the prefix is absent
+                         (offset 0) or non-empty and abuts the colon, so the recorded name span covers the
+                         WHOLE name as written (`WholeName`; the two former C17 findings are closed)
+    C17_slice_element    `ElementStart` slices the source to the WHOLE qualified name as written, whose local
                          name is the node name's and whose prefix is bound (own declarations first,
                          then the enclosing ones) to the node name's namespace; `ElementEnd` slices to
                          `/>` or to a text `</…>`
-    C17_slice_attribute  `AttributeName` slices to the qualified name as written, `AttributeValue` to the
+    C17_slice_attribute  `AttributeName` slices to the WHOLE qualified name as written, `AttributeValue` to the
                          value text, which decodes (`parse_attribute`, ID-normalised for the name id of
                          xml:id) to the attribute node's value
                          (the value span lies between two equal quote characters of the source)
@@ -69,6 +72,8 @@ import XotModel.Model.ParseString
 import XotModel.Lemmas.SpanSliceNode
 import XotModel.Lemmas.SpanDescErr
 import XotModel.Lemmas.SpanDescWitness
+import XotModel.Lemmas.ColonWitness
+import XotModel.Lemmas.ParseErase
 
 namespace XotModel.Props
 open XotModel XotModel.Witness
@@ -353,13 +358,51 @@ on the path (the node itself included) its namespace-node children as (prefix id
 innermost first, above the initial bindings of `xml` and the empty prefix; `lookupPrefix` is the
 builder's own lookup, "nearest declaration wins" (C02_scope_nearest, C02_scope_strings). -/
 
-/-- C17_slice_element.  The element at `q` was made by an `ElementStart` token `pfx:loc` of the text:
-    the `ElementStart` span slices the text to `pfx:loc` resp. `loc` as written, `loc` is the local name
+/-- The qualified name of a token is written in full inside the recorded name span: the prefix is
+    ABSENT (xmlparser's `"".into()`: empty, offset 0 - the name is `loc`), or it is NOT EMPTY and ends
+    one byte - the colon - before the local name (the name is `pfx:loc`).  The third spelling the
+    tokenizer lets through, `:loc` (an empty prefix positioned at the colon, the colon outside the
+    recorded span), is excluded: xot refuses it since /repo a5fafb0. -/
+def WholeName (pfx loc : StrSpan) : Prop :=
+  (pfx.text = [] ∧ pfx.start = 0) ∨ (pfx.text ≠ [] ∧ pfx.stop + 1 = loc.start)
+
+/-- C17_names_whole: in an ACCEPTED text every element start, attribute and end tag has its name
+    written in full (`WholeName`), so `tokQName pfx loc` IS the name as written, colon included.
+    (Formerly the findings C17:element-start-span-is-not-the-whole-written-name and
+    C17:attribute-name-span-is-not-the-whole-written-name: `<:a/>`, `<a :b='1'/>` were accepted and
+    the recorded span, `a` resp. `b`, missed the colon.) -/
+theorem C17_names_whole {m : Mode} {env : Env} {s : Str} {p : Parsed} (h : parseString m env s = .ok p)
+    {t : Token} (ht : t ∈ (lexMode m s).1) {pfx loc : StrSpan} (hq : t.qname = some (pfx, loc)) :
+    WholeName pfx loc := by
+  have hok : t.prefixOk = true := by
+    have := build_ok_prefixOk (show build m (strLen s) env (lexMode m s).1 (lexMode m s).2 = .ok p from h)
+    simp only [tokensPrefixOk, List.all_eq_true] at this
+    exact this t ht
+  rw [Token.prefixOk_of_qname hq] at hok
+  have hbc : pfx.bareColon = false := by simpa using hok
+  have hab : t.Abuts := by
+    cases m with
+    | document => exact lexDocument_abuts s t ht
+    | fragment => exact lexFragment_abuts s t ht
+  have hA : Abut pfx loc := by
+    rcases Token.qname_elim hq with ⟨v, sp, rfl⟩ | ⟨sp, rfl⟩ | ⟨sp, rfl⟩ <;> exact hab
+  rcases hA with h0 | h1
+  · exact .inl h0
+  · by_cases hp : pfx.text = []
+    · left
+      refine ⟨hp, ?_⟩
+      simp only [StrSpan.bareColon, hp, List.isEmpty_nil, Bool.true_and, bne_eq_false_iff_eq] at hbc
+      exact hbc
+    · exact .inr ⟨hp, h1⟩
+
+/-- C17_slice_element.  The element at `q` was made by an `ElementStart` token `pfx:loc` of the text
+    whose name is written in full (`WholeName`: never `:loc`): the `ElementStart` span slices the text to
+    the WHOLE qualified name as written, `pfx:loc` resp. `loc`; `loc` is the local name
     of the node's name, and the namespace of the node's name is what `pfx` is bound to at that place.
     The `ElementEnd` span slices to the whole span of a `/>` or end-tag token: `/>`, or `</` … `>`. -/
 theorem C17_slice_element {m : Mode} {env : Env} {s : Str} {p : Parsed} (h : parseString m env s = .ok p)
     {q : Path} {id : Nat} {ks : List Tree} (hat : p.tree.at? q = some (.node (.element id) ks)) :
-    (∃ pfx loc wsp, Token.elementStart pfx loc wsp ∈ (lexMode m s).1 ∧
+    (∃ pfx loc wsp, Token.elementStart pfx loc wsp ∈ (lexMode m s).1 ∧ WholeName pfx loc ∧
       (∃ sp, p.spans.get ⟨q, .elementStart⟩ = some sp ∧
         sliceBytes s sp.start sp.stop = some (tokQName pfx.text loc.text)) ∧
       pfx.text ∈ p.env.prefixes ∧
@@ -367,11 +410,13 @@ theorem C17_slice_element {m : Mode} {env : Env} {s : Str} {p : Parsed} (h : par
         lookupPrefix (scopeAt p.tree baseStack q) (p.env.prefixes.idxOf pfx.text) = some ns) ∧
     ∃ e esp, Token.elementEnd e esp ∈ (lexMode m s).1 ∧ e ≠ .open ∧
       (∃ sp, p.spans.get ⟨q, .elementEnd⟩ = some sp ∧ sliceBytes s sp.start sp.stop = some esp.text) ∧
-      (esp.text = ['/', '>'] ∨ ∃ mid, esp.text = '<' :: '/' :: (mid ++ ['>'])) :=
-  (parseString_sliced h hat).1
+      (esp.text = ['/', '>'] ∨ ∃ mid, esp.text = '<' :: '/' :: (mid ++ ['>'])) := by
+  obtain ⟨⟨pfx, loc, wsp, hmem, hrest⟩, hend⟩ := (parseString_sliced h hat).1
+  exact ⟨⟨pfx, loc, wsp, hmem, C17_names_whole h hmem rfl, hrest⟩, hend⟩
 
 /-- C17_slice_attribute.  Every attribute child `(n, v)` of the element at `q` was made by an
-    `Attribute` token: `AttributeName n` slices to its qualified name as written, `AttributeValue n`
+    `Attribute` token whose name is written in full (`WholeName`: never `:loc`): `AttributeName n` slices
+    to the WHOLE qualified name as written, `AttributeValue n`
     to its value text `val`, which is the text BETWEEN THE QUOTES (the source reads `qc val qc` there,
     `qc` one of `"` `'`, and the span starts one byte after the first `qc`), `parse_attribute(val)` succeeds and — ID-normalised when `n` is the name
     id of xml:id (expanded name, whatever the prefix) — is the node's value; the local name is the
@@ -380,7 +425,7 @@ theorem C17_slice_element {m : Mode} {env : Env} {s : Str} {p : Parsed} (h : par
 theorem C17_slice_attribute {m : Mode} {env : Env} {s : Str} {p : Parsed} (h : parseString m env s = .ok p)
     {q : Path} {id : Nat} {ks : List Tree} (hat : p.tree.at? q = some (.node (.element id) ks))
     {k : Tree} (hk : k ∈ ks) {n : Nat} {v : Str} (hv : k.value = .attribute n v) :
-    ∃ pfx loc val wsp, Token.attribute pfx loc val wsp ∈ (lexMode m s).1 ∧
+    ∃ pfx loc val wsp, Token.attribute pfx loc val wsp ∈ (lexMode m s).1 ∧ WholeName pfx loc ∧
       (∃ sp, p.spans.get ⟨q, .attributeName n⟩ = some sp ∧
         sliceBytes s sp.start sp.stop = some (tokQName pfx.text loc.text)) ∧
       (∃ sp, p.spans.get ⟨q, .attributeValue n⟩ = some sp ∧ sliceBytes s sp.start sp.stop = some val.text ∧
@@ -390,8 +435,20 @@ theorem C17_slice_attribute {m : Mode} {env : Env} {s : Str} {p : Parsed} (h : p
       pfx.text ∈ p.env.prefixes ∧
       ∃ ns, p.env.names[n]? = some (loc.text, ns) ∧
         if p.env.prefixes.idxOf pfx.text = Env.emptyPrefix then ns = Env.noNamespace
-        else lookupPrefix (scopeAt p.tree baseStack q) (p.env.prefixes.idxOf pfx.text) = some ns :=
-  (parseString_sliced h hat).2 k hk n v hv
+        else lookupPrefix (scopeAt p.tree baseStack q) (p.env.prefixes.idxOf pfx.text) = some ns := by
+  obtain ⟨pfx, loc, val, wsp, hmem, hrest⟩ := (parseString_sliced h hat).2 k hk n v hv
+  exact ⟨pfx, loc, val, wsp, hmem, C17_names_whole h hmem rfl, hrest⟩
+
+/-- The former witnesses: `<:a/>` and `<a :b='1'/>` are rejected, and the error span slices the text to
+    the whole name as written, colon included (`:a`, bytes 1..3; `:b`, bytes 3..5). -/
+example : (parseString .document Env.fresh colonElementText).err? = some (.unknownPrefix [] ⟨1, 3⟩) ∧
+    sliceBytes colonElementText 1 3 = some [':', 'a'] := by
+  refine ⟨?_, by decide⟩
+  simp only [parseString, lexMode, lex_colonElement]; rfl
+example : (parseString .document Env.fresh colonAttributeText).err? = some (.unknownPrefix [] ⟨3, 5⟩) ∧
+    sliceBytes colonAttributeText 3 5 = some [':', 'b'] := by
+  refine ⟨?_, by decide⟩
+  simp only [parseString, lexMode, lex_colonAttribute]; rfl
 
 /-- C17_slice_comment: the `Comment` span slices to the comment's body AS WRITTEN (`w`); the node's
     value is its line-end normalisation (`content.replace("\r\n", "\n").replace('\r', "\n")`). -/
